@@ -20,6 +20,7 @@ func runC02(p *core.Prog, r *core.Result) {
 		"R2.6 the verdict 'a dependency is out of date' is produced only where a dependency has no recorded stamp, changed in this build, or has a stamp different from the recorded one - nowhere else (no comparison of counts, no extra condition merged in after the loop)",
 		"R2.7 the stamp a loaded target reports to its dependents (targetInfo.stamp) is a persisted field of its record, verbatim (the combined stamp, or the plain data of a record written before combined stamps existed) - never a value recomputed at load, which differs from what dependents stored whenever the formula or the record format has changed since",
 		"R2.5 the current environment of a function (functionEnv) is not computed from anything reachable from loadFunction: it is taken only after every module has finished executing, so it is complete",
+		"R2.8 what a function's stamp is computed from is fixed when loading ends: a host value whose contents are written while targets run (a cache) is neither pickled by content by the encoder nor read by the host pickler - otherwise the stamp recorded by one build differs from the one the next, unchanged, build computes before anything ran (shared with C08 R8.8)",
 		"R2.4 both sides of the environment comparison are produced by the same decoder/unpickler, and the persisted stamp by the same pickler as the current one",
 	}
 	r.NotDecided = []string{"that unrelated edits (comments, whitespace, other packages) leave the compiled bytecode and constants of a function unchanged (a property of the Starlark compiler)", "behaviour across process restarts and load interleavings as observed"}
@@ -30,6 +31,9 @@ func runC02(p *core.Prog, r *core.Result) {
 
 	// ---- R2.2
 	checkSourceCompare(p, r, "R2.2")
+
+	// ---- R2.8 run-time contents stay out of the stamp
+	checkRuntimeStateNotPickledByContent(p, r, "R2.8")
 
 	// ---- R2.5 the current environment is computed when the target is checked, not while modules are still loading
 	if fe, lf := p.Func("", "", "functionEnv"), p.Func("", "Project", "loadFunction"); fe != nil && lf != nil {
